@@ -234,7 +234,7 @@ inductive Op
   | swrd (cid : Bytes) (key : Nat) (value : Bytes)
   | supd (cid : Bytes) (key offset : Nat) (src : Bytes)
   | spld (cid : Bytes) (key : Nat)
-  /-- end of a transaction (`Transactor`: `storage.revert()` if it reverted, else `storage.commit()`) and start
+  /-- end of a transaction (`MemoryClient::transact`: `storage.revert()` if it reverted, else `storage.commit()`) and start
   of the next one (`init_inner`: `storage_slot_cache.clear()`) -/
   | tx (revert : Bool)
 
